@@ -44,6 +44,62 @@ func runC12(w *World, r *Report) {
 	st := isT.Underlying().(*types.Struct)
 
 	// ---- codec-agree
+	// ---- every element gets its entry: inside the encoder's loops the write of the encoded element is reached on every
+	// iteration (only the loop test, error checks and the exported-field test stand before it) — no "needs no entry"
+	// shortcut: a skipped zero value inside an interface-typed field comes back as a nil interface
+	r.Rule("C12.every-element-encoded", "internalMarshal: the stores of encoded struct fields / map entries / slice elements are guarded, inside their loop, only by the loop test, err == nil and the exported-field test (field.PkgPath == \"\")", 3)
+	{
+		im := w.Fn("internal/serialization", "internalMarshal")
+		loopCond := guardIsLoopCond(im)
+		isPkgPathGuard := func(g guard) bool {
+			op, x, y, ok := asCmp(g.cond)
+			if !ok || (op != token.EQL && op != token.NEQ) {
+				return false
+			}
+			isPP := func(v ssa.Value) bool {
+				f, _ := loadedField(v)
+				return f != nil && f.Name() == "PkgPath"
+			}
+			isEmpty := func(v ssa.Value) bool { cs, ok := constString(v); return ok && cs == "" }
+			return (isPP(x) && isEmpty(y)) || (isPP(y) && isEmpty(x))
+		}
+		// guards that dominate the loop itself (kind dispatch, registry lookups …) are not the iteration's business
+		n := 0
+		for _, fw := range fieldWrites(im) {
+			if fw.kind != "mapupdate" && fw.kind != "elemstore" {
+				continue
+			}
+			if fw.field.Name() != "MapValues" && fw.field.Name() != "SliceValues" {
+				continue
+			}
+			var inner *loopInfo
+			for _, li := range naturalLoops(im) {
+				li := li
+				if li.body[fw.in.Block()] && (inner == nil || len(li.body) < len(inner.body)) {
+					inner = &li
+				}
+			}
+			if inner == nil {
+				continue
+			}
+			n++
+			var extra []string
+			for _, g := range guardsOf(fw.in.Block()) {
+				if g.at == nil || !inner.body[g.at.Block()] {
+					continue // outside the loop
+				}
+				if loopCond(g) || guardErrNil(g) || isPkgPathGuard(g) {
+					continue
+				}
+				extra = append(extra, guardText(g))
+			}
+			r.Check(len(extra) == 0, "C12.every-element-encoded", fmt.Sprintf("internalMarshal: store #%d into %s", n, fw.field.Name()), fw.in.Pos(), "reached on every iteration (loop test / err == nil / exported-field test only)", "the element is written only when "+strings.Join(extra, " && ")+": an element the encoder decides to leave out is decoded as the zero value of its HOLDER — for an interface-typed field or element that is a nil interface, not the int 0 / \"\" / typed nil pointer that was stored (deeply different, silently)")
+		}
+		if n < 3 {
+			r.Fail("C12.every-element-encoded", "internalMarshal: element stores", im.Pos(), fmt.Sprintf("%d element stores inside loops found (struct fields, map entries, slice elements expected)", n))
+		}
+	}
+
 	r.Rule("C12.codec-agree", "internalStruct fields written by internalMarshal == fields read by internalUnmarshal", 10)
 	written := map[string]bool{}
 	for _, fw := range fieldWrites(im) {
